@@ -728,10 +728,32 @@ void run_smoother_common(const Value& plan, Result& r, bool extrapolated)
             std::vector<double> res = ref.residual(xo, fm), bnd = ref.bound(xs, fm);
             double u = inf_norm(res) / (inf_norm(bnd) + 1e-300);
             r.maxim(fmt("fixed_point_units:%s", variant ? "take" : "give"), u);
-            if (!(u <= 16.0))
+            if (getenv("GMGSIM_DEBUG_FP")) {
+                std::vector<double> r0 = ref.residual(xs, fm);
+                fprintf(stderr, "x* residual units %.3g\n", inf_norm(r0) / (inf_norm(bnd) + 1e-300));
+                for (int i = 0; i < ref.A.nr; i++) {
+                    double md = 0, mx = 0, mr = 0, mb = 0;
+                    for (int j = 0; j < ref.A.ntheta; j++) {
+                        int m = i * ref.A.ntheta + j;
+                        md    = std::max(md, std::fabs(xo[m] - xs[m]));
+                        mx    = std::max(mx, std::fabs(xs[m]));
+                        mr    = std::max(mr, std::fabs(res[m]));
+                        mb    = std::max(mb, std::fabs(bnd[m]));
+                    }
+                    fprintf(stderr, "i_r=%d max|dx|=%.3e max|x*|=%.3e max|res|=%.3e max bnd=%.3e\n", i, md, mx, mr, mb);
+                }
+            }
+            if (!(u <= 16.0)) {
+                int worst = 0;
+                for (int m = 0; m < n; m++)
+                    if (std::fabs(res[m]) > std::fabs(res[worst]))
+                        worst = m;
                 r.fail(fmt("%s.exact_solution_not_fixed_point:%s", P, variant ? "take" : "give"),
-                       fmt("sweep started at the discrete solution leaves residual %.3g x bound; %s", u,
-                           r.signature.c_str()));
+                       fmt("sweep started at the discrete solution leaves residual %.3g x bound (worst row: i_r=%d "
+                           "i_theta=%d residual %.3e, x*=%.6e, after sweep %.6e, rhs %.3e, |b|-bound %.3e); %s",
+                           u, worst / ref.A.ntheta, worst % ref.A.ntheta, res[worst], xs[worst], xo[worst], fm[worst],
+                           inf_norm(bnd), r.signature.c_str()));
+            }
         }
         if (!extrapolated) {
             // energy norm of the error never increases once the boundary values carry the data
